@@ -28,10 +28,20 @@ import (
 	"verif/harness/plan"
 )
 
-const (
-	verif = "/verif"
-	repo  = "/repo"
-)
+const repo = "/repo"
+
+// verif is the root of the verification tree: the parent of the directory holding this
+// executable (so that a snapshot of /verif elsewhere works on its own files).
+var verif = func() string {
+	if r := os.Getenv("VERIF_ROOT"); r != "" {
+		return r
+	}
+	exe, err := os.Executable()
+	if err != nil {
+		return "/verif"
+	}
+	return filepath.Dir(filepath.Dir(exe))
+}()
 
 var goEnv = []string{"GOFLAGS=-mod=mod", "GOPROXY=off", "GOSUMDB=off", "GOTOOLCHAIN=local"}
 
@@ -68,7 +78,7 @@ func main() {
 			die(2, "replay needs a file")
 		}
 		b := ensureBuild(false)
-		cmd := exec.Command(filepath.Join(b, "vworker"), "-replay", os.Args[2], "-mode", replayMode(os.Args[2]))
+		cmd := exec.Command(filepath.Join(b, "vworker"), "-findings", filepath.Join(verif, "findings", "known_findings.json"), "-replay", os.Args[2], "-mode", replayMode(os.Args[2]))
 		cmd.Stdout, cmd.Stderr = os.Stdout, os.Stderr
 		if err := cmd.Run(); err != nil {
 			if ee, ok := err.(*exec.ExitError); ok {
@@ -310,7 +320,7 @@ func runSub(build, tmp string, s plan.Sub, tier string, seed int64) *subResult {
 			out := filepath.Join(tmp, fmt.Sprintf("%s-%d.json", strings.ReplaceAll(s.Name, "/", "_"), i))
 			attempt := 0
 			for {
-				cmd := exec.Command(bin, "-check", s.Name, "-tier", tier, "-shard", strconv.Itoa(i), "-nshards", strconv.Itoa(n),
+				cmd := exec.Command(bin, "-findings", filepath.Join(verif, "findings", "known_findings.json"), "-check", s.Name, "-tier", tier, "-shard", strconv.Itoa(i), "-nshards", strconv.Itoa(n),
 					"-seed", strconv.FormatInt(seed, 10), "-out", out, "-mode", s.Mode, "-budget", strconv.Itoa(budget),
 					"-skipfile", out+".skip")
 				var stderr bytes.Buffer
